@@ -94,6 +94,15 @@ class C14(DevProp):
                 ev = dv + [k(c, 1) for c in held] + [k(57, 1), k(57, 0)] + [k(c, 0) for c in held] + dv + [k(c, 1) for c in held] + \
                     [k(last, 1)] + [k(c, 0) for c in perm] + [k(c, 1) for c in held] + [k(c, 0) for c in held] + [k(last, 1), k(last, 0)]
                 cases.append({"cfg": cfg, "abs": [], "events": ev, "tag": "disturb-stray-release"})
+            # events of other evdev types (EV_MSC scancodes, EV_LED, EV_REL of a built-in pointer ...) carrying the CODE of a sequence key and a
+            # value that would mean press / release for a key: they are not key events - they neither hold nor release anything
+            def o(code, val, ty):
+                return {"t": "o", "ty": ty, "sub": "", "code": code, "val": val}
+            disturb.append(("othertype-release", [o(c, rng.choice([0, -3, 2]), rng.choice([2, 4, 0x11])) for c in held]))
+            for ty in (0x11, 2, 4):
+                ev = [o(c, 1, ty) for c in perm] + [k(c, 1) for c in held] + [o(last, 1, ty)] + [k(57, 1), k(57, 0)] + [k(c, 0) for c in held] + \
+                    [k(last, 1), k(last, 0)] + [k(c, 1) for c in held] + [o(c, 0, ty) for c in held] + [k(last, 1)] + [k(c, 0) for c in perm]
+                cases.append({"cfg": cfg, "abs": [], "events": ev, "tag": "disturb-othertype-phantom"})
             for name, dv in disturb:
                 if not dv:
                     continue
